@@ -7,24 +7,36 @@ Section Proofs.
   Context {Meta : Type} (meta0 : Meta) (enc_meta : Meta -> bytes)
           (dec_meta : Meta -> bytes -> option Meta).
   Context (print_sums : list (digest * string) -> bytes)
-          (parse_sums : bytes -> list (option (digest * string))).
+          (parse_sums : bytes -> list (option (digest * string)))
+          (scan_err : bytes -> bool).
 
-  (* What the theorems assume of the external pieces. *)
+  Notation read := (read deqb H meta0 dec_meta parse_sums scan_err).
+  Notation read_gz := (read_gz deqb H meta0 dec_meta parse_sums scan_err).
+  Notation read_members := (read_members dec_meta).
+  Notation write := (write H enc_meta print_sums).
+  Notation sums_lines := (sums_lines H enc_meta).
+  Notation verify_lines := (@verify_lines digest deqb H Meta).
+  Notation decode_and_verify := (decode_and_verify deqb H parse_sums scan_err).
+  Notation lookup_hash := (@lookup_hash digest H Meta).
+
+  (* What the theorems assume of the external pieces.  Each theorem depends only on the
+     hypotheses its proof uses (the Section discharges the others); Properties/C20.v shows,
+     per theorem, exactly which ones are passed. *)
   Hypothesis deqb_spec : forall a b, deqb a b = true <-> a = b.
   Hypothesis H_inj : forall a b, H a = H b -> a = b.                 (* collision freedom *)
   Hypothesis dec_enc : forall m, dec_meta meta0 (enc_meta m) = Some m. (* JSON round trip *)
   Hypothesis dec_empty : forall m, dec_meta m [] = None.              (* json.Unmarshal("") fails *)
   Hypothesis enc_nonempty : forall m, enc_meta m <> [].
-  Hypothesis parse_print : forall l, parse_sums (print_sums l) = map Some l.
+  (* an encoding cut into three parts: the first two (non-empty) do not both decode
+     (encoding/json: one JSON object and a newline) *)
+  Hypothesis dec_pieces : forall m a b c md md',
+    a ++ b ++ c = enc_meta m -> a <> [] -> b <> [] ->
+    dec_meta md a = None \/ dec_meta md' b = None.
+  (* the line codec, on the lines the writer writes only *)
+  Hypothesis parse_print : forall ord m s,
+    parse_sums (print_sums (sums_lines ord m s)) = map Some (sums_lines ord m s).
+  Hypothesis scan_print : forall ord m s, scan_err (print_sums (sums_lines ord m s)) = false.
   Hypothesis parse_empty : parse_sums [] = [].
-
-  Notation read := (read deqb H meta0 dec_meta parse_sums).
-  Notation read_members := (read_members dec_meta).
-  Notation write := (write H enc_meta print_sums).
-  Notation sums_lines := (sums_lines H enc_meta).
-  Notation verify_lines := (@verify_lines digest deqb H Meta).
-  Notation decode_and_verify := (decode_and_verify deqb H parse_sums).
-  Notation lookup_hash := (@lookup_hash digest H Meta).
 
   Definition datas (n : string) (L : list member) : list bytes :=
     map m_data (filter (fun mb => String.eqb (m_name mb) n) L).
@@ -130,6 +142,7 @@ Section Proofs.
   Proof.
     unfold Model.decode_and_verify. intros Hd.
     destruct (verify_lines a (parse_sums (a_sums a)) []) as [seen|e] eqn:Ev; [|discriminate].
+    destruct (scan_err (a_sums a)); [discriminate|].
     destruct (mem_str n_meta seen && mem_str n_state seen) eqn:Em; [|discriminate].
     apply andb_true_iff in Em as [Hm Hs]. apply mem_str_In in Hm, Hs.
     apply verify_lines_inv in Ev as [Hall Hseen]. split; [exact Hall|]. split.
@@ -169,6 +182,60 @@ Section Proofs.
       change (String.eqb n_state n_state) with true in Hin. rewrite Hs in Hin. congruence.
   Qed.
 
+  (* ---- "lacks a member or its checksum": for EVERY member list ---- *)
+  Theorem no_meta_rejected L t r : datas n_meta L = [] -> read L t = Ok r -> False.
+  Proof.
+    intros Hx Hr. destruct r as [m' s'].
+    apply read_ok_inv in Hr as (_ & _ & _ & _ & Hm & _). exact (Hm Hx).
+  Qed.
+
+  Theorem no_state_rejected L t r : datas n_state L = [] -> read L t = Ok r -> False.
+  Proof.
+    intros Hx Hr. destruct r as [m' s'].
+    apply read_ok_inv in Hr as (_ & _ & _ & _ & _ & Hs & _). exact (Hs Hx).
+  Qed.
+
+  (* no parsed checksum line names meta.json / state.bin *)
+  Theorem no_meta_line_rejected L t r :
+    (forall d, ~ In (Some (d, n_meta)) (parse_sums (cat n_sums L))) -> read L t = Ok r -> False.
+  Proof.
+    intros Hx Hr. destruct r as [m' s'].
+    apply read_ok_inv in Hr as (_ & _ & _ & _ & _ & _ & [d Hd] & _). exact (Hx d Hd).
+  Qed.
+
+  Theorem no_state_line_rejected L t r :
+    (forall d, ~ In (Some (d, n_state)) (parse_sums (cat n_sums L))) -> read L t = Ok r -> False.
+  Proof.
+    intros Hx Hr. destruct r as [m' s'].
+    apply read_ok_inv in Hr as (_ & _ & _ & _ & _ & _ & _ & [d Hd] & _). exact (Hx d Hd).
+  Qed.
+
+  (* the checksum bytes are empty: the member is absent, or every SHA256SUMS member is empty *)
+  Theorem no_sums_rejected L t r : cat n_sums L = [] -> read L t = Ok r -> False.
+  Proof.
+    intros Hq. apply no_meta_line_rejected. intros d Hd. rewrite Hq, parse_empty in Hd. destruct Hd.
+  Qed.
+
+  Theorem no_sums_member_rejected L t r : datas n_sums L = [] -> read L t = Ok r -> False.
+  Proof. intros Hq. apply no_sums_rejected. unfold cat. rewrite Hq. reflexivity. Qed.
+
+  (* a recorded checksum that is not the hash of the member's bytes *)
+  Theorem wrong_meta_sum_rejected L t r d :
+    In (Some (d, n_meta)) (parse_sums (cat n_sums L)) -> d <> H (cat n_meta L) ->
+    read L t = Ok r -> False.
+  Proof.
+    intros Hin Hd Hr. destruct r as [m' s'].
+    apply read_ok_inv in Hr as (_ & _ & _ & _ & _ & _ & _ & _ & Hm & _). exact (Hd (Hm d Hin)).
+  Qed.
+
+  Theorem wrong_state_sum_rejected L t r d :
+    In (Some (d, n_state)) (parse_sums (cat n_sums L)) -> d <> H (cat n_state L) ->
+    read L t = Ok r -> False.
+  Proof.
+    intros Hin Hd Hr. destruct r as [m' s'].
+    apply read_ok_inv in Hr as (_ & _ & _ & _ & _ & _ & _ & _ & _ & Hs). exact (Hd (Hs d Hin)).
+  Qed.
+
   (* ---- round trip ---- *)
   Lemma deqb_refl d : deqb d d = true.
   Proof. apply deqb_spec; reflexivity. Qed.
@@ -176,7 +243,7 @@ Section Proofs.
   Lemma verify_written ord m s sm ss :
     decode_and_verify (Acc (enc_meta m) s (print_sums (sums_lines ord m s)) m sm ss) = Ok tt.
   Proof.
-    unfold Model.decode_and_verify. cbn [a_sums]. rewrite parse_print.
+    unfold Model.decode_and_verify. cbn [a_sums]. rewrite parse_print, scan_print.
     destruct ord; unfold Model.sums_lines; cbn [map Model.verify_lines];
       unfold Model.lookup_hash; cbn [a_meta a_state];
       change (String.eqb n_meta n_meta) with true;
@@ -225,6 +292,42 @@ Section Proofs.
     apply H_inj in E1, E2. subst s'. repeat split; congruence.
   Qed.
 
+  (* pieces that all decode and concatenate to an encoding: there is one piece, the encoding *)
+  Lemma dec_all_some_nonempty ds : forall md m', dec_all md ds = Some m' -> Forall (fun d => d <> []) ds.
+  Proof.
+    induction ds as [|d ds IH]; intros md m' Hd; [constructor|].
+    cbn in Hd. destruct (dec_meta md d) as [md'|] eqn:E; [|discriminate].
+    constructor; [|eapply IH; eassumption].
+    intros ->. rewrite dec_empty in E. discriminate.
+  Qed.
+
+  Lemma dec_all_encoding m ds m' :
+    dec_all meta0 ds = Some m' -> List.concat ds = enc_meta m -> m' = m.
+  Proof.
+    intros Hd Hc. pose proof (dec_all_some_nonempty _ _ _ Hd) as Hne.
+    destruct ds as [|a [|b rest]].
+    - cbn in Hc. symmetry in Hc. destruct (enc_nonempty _ Hc).
+    - cbn in Hc. rewrite app_nil_r in Hc. subst a. cbn in Hd. rewrite dec_enc in Hd. congruence.
+    - exfalso. cbn [List.concat] in Hc. cbn [dec_all] in Hd.
+      destruct (dec_meta meta0 a) as [md1|] eqn:E1; [|discriminate].
+      destruct (dec_meta md1 b) as [md2|] eqn:E2; [|discriminate].
+      inversion Hne as [|? ? Ha Hne']; subst. inversion Hne' as [|? ? Hb _]; subst.
+      destruct (dec_pieces m a b (List.concat rest) meta0 md1 Hc Ha Hb); congruence.
+  Qed.
+
+  (* For EVERY member list: acceptance with untouched checksum bytes means the original state
+     bytes and the original metadata, however the members are cut or repeated. *)
+  Theorem accept_sound ord m s L t m' s' :
+    cat n_sums L = print_sums (sums_lines ord m s) ->
+    read L t = Ok (m', s') ->
+    m' = m /\ s' = s /\ cat n_state L = s /\ cat n_meta L = enc_meta m.
+  Proof.
+    intros Hq Hr. pose proof Hr as Hr2.
+    apply (sums_intact_sound ord m s) in Hr as (Hs & Hst & Hm); [|exact Hq].
+    apply read_ok_inv in Hr2 as (_ & _ & _ & Hd & _).
+    split; [|auto]. eapply dec_all_encoding; [exact Hd|exact Hm].
+  Qed.
+
   (* payload members untouched (exactly one of each, as written) => extraction identical,
      whatever happened to the SHA256SUMS member(s) *)
   Theorem payload_intact_sound m s L t m' s' :
@@ -257,8 +360,8 @@ Section Proofs.
       inserted x L L' -> corrupt L L' true
   | c_reorder L' :
       Permutation L L' -> corrupt L L' true
-  | c_rename pre mb post n' :              (* renaming into SHA256SUMS is excluded, see DESIGN *)
-      L = pre ++ mb :: post -> n' <> m_name mb -> n' <> n_sums ->
+  | c_rename pre mb post n' :              (* to ANY other name, the three expected ones included *)
+      L = pre ++ mb :: post -> n' <> m_name mb ->
       corrupt L (pre ++ Member n' (m_data mb) true :: post) true.
 
   Lemma three_split {A} (x y z : A) pre mb post :
@@ -279,7 +382,7 @@ Section Proofs.
   Lemma app_eq_self_r {A} (a b : list A) : b ++ a = a -> b = [].
   Proof.
     intros Hx. assert (Hl : List.length (b ++ a) = List.length a) by (rewrite Hx; reflexivity).
-    rewrite app_length in Hl. destruct b; [reflexivity|cbn in Hl; lia].
+    rewrite app_length in Hl. destruct b; [reflexivity|cbn in Hl; clear - Hl; lia].
   Qed.
 
   Local Ltac names :=
@@ -304,14 +407,6 @@ Section Proofs.
   Lemma write_datas_sums ord m s : datas n_sums (write ord m s) = [print_sums (sums_lines ord m s)].
   Proof. unfold Model.write. rewrite !datas_cons. names. reflexivity. Qed.
 
-  (* a missing checksum member is always rejected *)
-  Lemma no_sums_rejected L t r : cat n_sums L = [] -> read L t = Ok r -> False.
-  Proof.
-    intros Hq Hr. destruct r as [m' s'].
-    apply read_ok_inv in Hr as (_ & _ & _ & _ & _ & _ & [d Hd] & _).
-    rewrite Hq, parse_empty in Hd. destruct Hd.
-  Qed.
-
   Lemma filter_perm_singleton {A} (f : A -> bool) L L' x :
     Permutation L L' -> filter f L = [x] -> filter f L' = [x].
   Proof.
@@ -335,9 +430,46 @@ Section Proofs.
     rewrite (filter_perm_singleton _ _ _ _ Hp Ef). reflexivity.
   Qed.
 
+  (* removing any member of a written archive is rejected (the empty state included) *)
+  Theorem remove_rejected ord m s pre mb post t r :
+    write ord m s = pre ++ mb :: post -> read (pre ++ post) t = Ok r -> False.
+  Proof.
+    intros Hw Hr. unfold Model.write in Hw.
+    apply three_split in Hw as [(->&->&->)|[(->&->&->)|(->&->&->)]]; cbn [app] in Hr.
+    - eapply no_meta_rejected; [|exact Hr]. rewrite !datas_cons. names. reflexivity.
+    - eapply no_state_rejected; [|exact Hr]. rewrite !datas_cons. names. reflexivity.
+    - eapply no_sums_member_rejected; [|exact Hr]. rewrite !datas_cons. names. reflexivity.
+  Qed.
+
+  (* renaming any member of a written archive to any other name is rejected *)
+  Theorem rename_rejected ord m s pre mb post n' t r :
+    write ord m s = pre ++ mb :: post -> n' <> m_name mb ->
+    read (pre ++ Member n' (m_data mb) true :: post) t = Ok r -> False.
+  Proof.
+    intros Hw Hn Hr. unfold Model.write in Hw.
+    apply three_split in Hw as [(->&->&->)|[(->&->&->)|(->&->&->)]];
+      cbn [app m_name m_data] in Hr, Hn; apply String.eqb_neq in Hn.
+    - eapply no_meta_rejected; [|exact Hr]. rewrite !datas_cons. cbn [m_name]. rewrite Hn. names. reflexivity.
+    - eapply no_state_rejected; [|exact Hr]. rewrite !datas_cons. cbn [m_name]. rewrite Hn. names. reflexivity.
+    - eapply no_sums_member_rejected; [|exact Hr]. rewrite !datas_cons. cbn [m_name]. rewrite Hn. names. reflexivity.
+  Qed.
+
+  (* an archive that stops, even cleanly, before its last member is rejected *)
+  Theorem clean_cut_rejected ord m s pre post t r :
+    write ord m s = pre ++ post -> post <> [] -> read pre t = Ok r -> False.
+  Proof.
+    intros Hw Hp Hr. eapply no_sums_member_rejected; [|exact Hr].
+    unfold Model.write in Hw.
+    destruct pre as [|a [|b [|c pre]]]; cbn in Hw; try reflexivity.
+    - injection Hw as <- _. rewrite datas_cons. names. reflexivity.
+    - injection Hw as <- <- _. rewrite !datas_cons. names. reflexivity.
+    - injection Hw as <- <- <- Hw. destruct pre; [|discriminate]. cbn in Hw. subst post. contradiction.
+  Qed.
+
   Theorem tamper ord m s L' t' r :
     corrupt (write ord m s) L' t' -> read L' t' = Ok r -> r = (m, s).
   Proof.
+    clear enc_nonempty dec_pieces scan_print.    (* not needed: keep them out of the statement *)
     intros Hc Hr. destruct r as [m' s'].
     pose proof (write_cat_sums ord m s) as Wq.
     pose proof (write_datas_meta ord m s) as Wm.
@@ -362,27 +494,9 @@ Section Proofs.
     - (* c_trunc_member *) apply read_ok_inv in Hr as (Ht & _). discriminate.
     - (* c_trunc_header *) apply read_ok_inv in Hr as (Ht & _). discriminate.
     - (* c_trunc_clean: the checksum member is gone *)
-      exfalso. eapply no_sums_rejected; [|exact Hr].
-      unfold Model.write in H0.
-      destruct L' as [|a [|b [|c L']]]; cbn in H0; try reflexivity.
-      + injection H0 as <- _. rewrite cat_cons. names. reflexivity.
-      + injection H0 as <- <- _. rewrite !cat_cons. names. reflexivity.
-      + injection H0 as <- <- <- H0. destruct L'; [|discriminate]. cbn in H0. subst post.
-        contradiction.
-    - (* c_remove *)
-      unfold Model.write in H0. apply three_split in H0 as [(->&->&->)|[(->&->&->)|(->&->&->)]];
-        cbn [app] in *.
-      + exfalso. eapply sums_intact_sound with (ord := ord) (m := m) (s := s) in Hr as (_ & _ & Hm).
-        * rewrite !cat_cons in Hm. names. unfold cat, datas in Hm; cbn in Hm.
-          symmetry in Hm. exact (enc_nonempty _ Hm).
-        * rewrite !cat_cons. names. unfold cat, datas; cbn. apply app_nil_r.
-      + (* state.bin removed: accepted only when the state is empty, extraction identical *)
-        pose proof Hr as Hr2.
-        eapply sums_intact_sound with (ord := ord) (m := m) (s := s) in Hr as (-> & Hs & _).
-        * apply read_ok_inv in Hr2 as (_ & _ & _ & Hd & _).
-          rewrite !datas_cons in Hd. names. cbn in Hd. rewrite dec_enc in Hd. congruence.
-        * rewrite !cat_cons. names. unfold cat, datas; cbn. apply app_nil_r.
-      + exfalso. eapply no_sums_rejected; [|exact Hr]. rewrite !cat_cons. names. reflexivity.
+      exfalso. eapply clean_cut_rejected; [exact H0|exact H1|exact Hr].
+    - (* c_remove: whichever member goes, the archive lacks it *)
+      exfalso. eapply remove_rejected; [exact H0|exact Hr].
     - (* c_inject *)
       destruct H0 as (a & b & Hab & ->).
       pose proof Hr as Hr2.
@@ -418,34 +532,8 @@ Section Proofs.
       eapply payload_intact_sound in Hr as [-> ->]; [reflexivity| |].
       + eapply datas_perm_singleton; eassumption.
       + eapply datas_perm_singleton; eassumption.
-    - (* c_rename *)
-      pose proof Hr as Hr2.
-      apply read_ok_inv in Hr2 as (_ & Hall & _ & Hd & _).
-      assert (Hx : member_ok (Member n' (m_data mb) true)).
-      { rewrite Forall_forall in Hall. apply Hall. apply in_or_app. right. left. reflexivity. }
-      destruct Hx as [[Hn|[Hn|Hn]] _]; cbn [m_name] in Hn; [| |contradiction]; subst n'.
-      + (* something renamed into meta.json *)
-        unfold Model.write in H0.
-        apply three_split in H0 as [(->&->&->)|[(->&->&->)|(->&->&->)]]; cbn [m_name m_data app] in *.
-        * contradiction.
-        * exfalso.
-          eapply sums_intact_sound with (ord := ord) (m := m) (s := s) in Hr as (_ & _ & Hm).
-          -- rewrite !cat_cons in Hm. names. unfold cat, datas in Hm; cbn in Hm.
-             rewrite app_nil_r in Hm. apply app_eq_self_l in Hm. subst s.
-             rewrite !datas_cons in Hd. names. cbn in Hd. rewrite dec_enc, dec_empty in Hd.
-             discriminate.
-          -- rewrite !cat_cons. names. unfold cat, datas; cbn. apply app_nil_r.
-        * exfalso. eapply no_sums_rejected; [|exact Hr]. rewrite !cat_cons. names. reflexivity.
-      + (* something renamed into state.bin *)
-        unfold Model.write in H0.
-        apply three_split in H0 as [(->&->&->)|[(->&->&->)|(->&->&->)]]; cbn [m_name m_data app] in *.
-        * exfalso.
-          eapply sums_intact_sound with (ord := ord) (m := m) (s := s) in Hr as (_ & _ & Hm).
-          -- rewrite !cat_cons in Hm. names. unfold cat, datas in Hm; cbn in Hm.
-             symmetry in Hm. exact (enc_nonempty _ Hm).
-          -- rewrite !cat_cons. names. unfold cat, datas; cbn. apply app_nil_r.
-        * contradiction.
-        * exfalso. eapply no_sums_rejected; [|exact Hr]. rewrite !cat_cons. names. reflexivity.
+    - (* c_rename: the archive lacks the member under its own name *)
+      exfalso. eapply rename_rejected; [exact H0|exact H1|exact Hr].
   Qed.
 
   (* ---- sharper statements for the classes the property names ---- *)
@@ -486,36 +574,9 @@ Section Proofs.
     apply Hall in Hin as [_ Hi]. congruence.
   Qed.
 
-  Theorem missing_sums_rejected m s t r :
-    read [Member n_meta (enc_meta m) true; Member n_state s true] t = Ok r -> False.
-  Proof.
-    intros Hr. eapply no_sums_rejected; [|exact Hr]. rewrite !cat_cons. names. reflexivity.
-  Qed.
-
-  Theorem missing_meta_rejected ord m s t r :
-    read [Member n_state s true; Member n_sums (print_sums (sums_lines ord m s)) true] t = Ok r
-    -> False.
-  Proof.
-    intros Hr. destruct r as [m' s'].
-    eapply sums_intact_sound with (ord := ord) (m := m) (s := s) in Hr as (_ & _ & Hm).
-    - rewrite !cat_cons in Hm. names. unfold cat, datas in Hm; cbn in Hm.
-      symmetry in Hm. exact (enc_nonempty _ Hm).
-    - rewrite !cat_cons. names. unfold cat, datas; cbn. apply app_nil_r.
-  Qed.
-
-  (* "lacks a member ... is rejected": also for state.bin, also when the state is empty *)
-  Theorem missing_state_rejected ord m s t r :
-    read [Member n_meta (enc_meta m) true; Member n_sums (print_sums (sums_lines ord m s)) true] t
-      = Ok r -> False.
-  Proof.
-    intros Hr. destruct r as [m' s'].
-    apply read_ok_inv in Hr as (_ & _ & _ & _ & _ & Hst & _).
-    apply Hst. rewrite !datas_cons. names. reflexivity.
-  Qed.
-
   (* the empty-state archive without its state.bin member: its hashes all match, and it is
-     refused because the member never appeared (before the repair recorded in
-     known_findings.json it was accepted) *)
+     refused because the member never appeared (before the repair 782406e, recorded as fixed in
+     known_findings.json, it was accepted) *)
   Theorem missing_state_empty_refused ord m :
     read [Member n_meta (enc_meta m) true; Member n_sums (print_sums (sums_lines ord m [])) true] true
       = Err ENotInArchive.
@@ -526,12 +587,28 @@ Section Proofs.
     rewrite verify_written. reflexivity.
   Qed.
 
+  (* an injected member with an EXPECTED name (a second SHA256SUMS, an empty extra state.bin, a
+     state.bin that is not a regular file and so has no data): accepted or not, the extraction is
+     the original *)
+  Theorem expected_extra_member_same_extraction ord m s x L' r :
+    inserted x (write ord m s) L' -> expected (m_name x) ->
+    read L' true = Ok r -> r = (m, s).
+  Proof. intros Hi _ Hr. eapply tamper; [eapply c_inject; exact Hi|exact Hr]. Qed.
+
   (* restore is fed only what the reader accepted *)
   Theorem verify_before_restore hdr L t tr r :
-    restore deqb H meta0 dec_meta parse_sums hdr L t tr = Some r ->
+    restore deqb H meta0 dec_meta parse_sums scan_err hdr L t tr = Some r ->
     hdr = true /\ tr = true /\ read L t = Ok r.
   Proof.
-    unfold restore, read_gz. destruct hdr; cbn [negb]; [|discriminate].
+    unfold restore, Model.read_gz. destruct hdr; cbn [negb]; [|discriminate].
+    destruct (read L t) as [r0|e]; [|discriminate].
+    destruct tr; [|discriminate]. intros Hx; injection Hx as <-. auto.
+  Qed.
+
+  Theorem read_gz_ok_inv hdr L t tr r :
+    read_gz hdr L t tr = Ok r -> hdr = true /\ tr = true /\ read L t = Ok r.
+  Proof.
+    unfold Model.read_gz. destruct hdr; cbn [negb]; [|discriminate].
     destruct (read L t) as [r0|e]; [|discriminate].
     destruct tr; [|discriminate]. intros Hx; injection Hx as <-. auto.
   Qed.
